@@ -147,6 +147,7 @@ func specHexDigit(n rune) byte {
 //@   props C02 C04 C05
 //@   auto
 //@   ensures [C04.C05.field-clean] len(s.buf) >= old(len(s.buf)) + len(name) + ite(s.jsonMode, 2, 0) + 3 && forall(k, old(len(s.buf)) + len(name) + ite(s.jsonMode, 2, 0), len(s.buf), s.buf[k] >= 32 && s.buf[k] != 127) && forall(k, 0, old(len(s.buf)), s.buf[k] == old(s.buf[k])) && grown(s.buf, old(s.buf))
+//@   ensures [C04.C05.field-closed] len(s.buf) > 0 && s.buf[len(s.buf)-1] == 34
 //@   at call (*PrintCtx).pcAppendStringKey assert [C04.C05.field-key] callee.s == s && same(callee.str, name)
 //@   at call (*PrintCtx).pcAppendQuotedStringValue assert [C04.C05.field-value] callee.s == s && same(callee.str, value)
 
@@ -208,7 +209,8 @@ func specHexDigit(n rune) byte {
 //@ func (*PrintCtx).pcAppendComma
 //@   props C02 C04 C05
 //@   auto
-//@   ensures [C05.comma] len(s.buf) == old(len(s.buf)) + 1 && s.buf[len(s.buf)-1] == ite(s.jsonMode, 44, 32) && grown(s.buf, old(s.buf)) && forall(k, 0, old(len(s.buf)), s.buf[k] == old(s.buf[k]))
+//@   ensures [C04.C05.comma] implies(!(s.jsonMode && old(len(s.buf)) > 0 && old(s.buf[len(s.buf)-1]) == 123), len(s.buf) == old(len(s.buf)) + 1 && s.buf[len(s.buf)-1] == ite(s.jsonMode, 44, 32) && grown(s.buf, old(s.buf)) && forall(k, 0, old(len(s.buf)), s.buf[k] == old(s.buf[k])))
+//@   ensures [C04.first-member] implies(s.jsonMode && old(len(s.buf)) > 0 && old(s.buf[len(s.buf)-1]) == 123, len(s.buf) == old(len(s.buf)) && same(s.buf, old(s.buf)))
 
 // the message field: key "msg", separator, the quoted message - nothing of the message reaches the line unescaped
 //@ func (*Entry).printMsg
@@ -217,13 +219,13 @@ func specHexDigit(n rune) byte {
 //@   ensures [C04.C05.msg-clean] implies(pc.noColor, len(pc.buf) >= old(len(pc.buf)) + 3 + ite(pc.jsonMode, 2, 0) + 3 && forall(k, old(len(pc.buf)) + 3 + ite(pc.jsonMode, 2, 0), len(pc.buf), pc.buf[k] >= 32 && pc.buf[k] != 127))
 //@   at call (*PrintCtx).AddString assert [C04.C05.msg-field] callee.s == pc && callee.name == "msg" && implies(pc.noColor, same(callee.value, pc.msg))
 
-// the logger name: in logfmt a quoted field followed by a separator; in JSON key, colon, the name between
-// quotes (not escaped: listed as not guarded under C04), then the comma
+// the logger name: in both structured formats a quoted, escaped field followed by a separator
 //@ func (*Entry).printLoggerName
 //@   props C02 C04 C05
 //@   auto
 //@   ensures [C04.C05.name-separated] implies(s.name != "" && pc.noColor, len(pc.buf) > old(len(pc.buf)) && pc.buf[len(pc.buf)-1] == ite(pc.jsonMode, 44, 32))
-//@   at call (*PrintCtx).AddString assert [C05.name-field] callee.s == pc && callee.name == "logger" && same(callee.value, s.name) && !pc.jsonMode && pc.noColor
+//@   at call (*PrintCtx).AddString assert [C04.C05.name-field] callee.s == pc && callee.name == "logger" && same(callee.value, s.name) && pc.noColor
+//@   at maybe-call (*PrintCtx).pcAppendStringValue assert [C04.C05.name-escaped] false
 
 // the continuation lines are coloured one by one (padFunc hands each line to the closure, which wraps it):
 // no colour spans the line breaks between them
@@ -231,6 +233,7 @@ func specHexDigit(n rune) byte {
 //@   props C02 C06
 //@   auto
 //@   at call (colorizeToolS).padFunc assert [C06.per-line] same(callee.str, pc.restLines) && callee.fn != nil
+//@   at call (colorizeToolS).padFunc assert [C06.four-spaces] callee.padChar == " " && callee.count == 4
 //@   at maybe-call (colorizeToolS).wrapColorAndBg assert [C06.per-line] false
 //@   at maybe-call (colorizeToolS).pad assert [C06.per-line] false
 
@@ -239,3 +242,27 @@ func specHexDigit(n rune) byte {
 //@   auto
 //@   requires pc != nil
 //@   at call (colorizeToolS).wrapColorAndBg assert [C06.line-wrapped] same(callee.text, line)
+
+// ---- numbers in JSON (C04): NaN and the infinities are not JSON numbers, so a float that is not finite must
+// not go out bare. (logg quotes every float; the clause only demands it where JSON has no number for the value.)
+func specFiniteFloat64(f float64) bool {
+	return f == f && f <= 1.79769313486231570814527423731704356798070e+308 && f >= -1.79769313486231570814527423731704356798070e+308
+}
+
+func specFiniteFloat32(f float32) bool {
+	return f == f && f <= 3.40282346638528859811704183484516925440e+38 && f >= -3.40282346638528859811704183484516925440e+38
+}
+
+//@ func ftoaS[float64]
+//@   props C02 C04
+//@   auto
+//@   at maybe-call (*PrintCtx).WriteByte effect ghost.ioBrace = callee.c
+//@   at call github.com/hedzr/logg/slog.ftoasimple[float64] assert [C04.float-json] implies(s.jsonMode && !specFiniteFloat64(val), ghost.ioBrace == 34)
+//@   ensures [C04.float-json-close] implies(s.jsonMode && !specFiniteFloat64(val), ghost.ioBrace == 34)
+
+//@ func ftoaS[float32]
+//@   props C02 C04
+//@   auto
+//@   at maybe-call (*PrintCtx).WriteByte effect ghost.ioBrace = callee.c
+//@   at call github.com/hedzr/logg/slog.ftoasimple[float32] assert [C04.float-json] implies(s.jsonMode && !specFiniteFloat32(val), ghost.ioBrace == 34)
+//@   ensures [C04.float-json-close] implies(s.jsonMode && !specFiniteFloat32(val), ghost.ioBrace == 34)
